@@ -301,4 +301,40 @@ def r4(ctx):
     return rep
 
 
-RULES = [("C12.R1", r1), ("C12.R2", r2), ("C12.R3", r3), ("C12.R4", r4)]
+def r5(ctx):
+    rep = Report("C12.R5", "MemcacheBinaryConnection::write puts the whole encoded response on the socket before it returns Ok (no deferred/queued responses); shutdown follows", floor=2)
+    f = ctx.facts
+    from bufmodel import BUF_MODELS
+
+    path = CONN + "::write::{closure#0}"
+    b = f.one(path)
+    rep.analysed(b)
+    I = Interp(f, models=BUF_MODELS, policy=lambda body, a: "opaque" if body.path == CODEC + "::encode_message" else "inline", loop_bound=1)
+    paths = I.run(b, [ClosureV(path, [P("self"), P("msg")], "coroutine"), P("cx")])
+    rep.evaluations += len(paths)
+    n_ok = 0
+    for p in paths:
+        var, _pl = variant_of(p.ret)
+        if var != "Ok":
+            continue
+        n_ok += 1
+        enc = [e for e in p.events if e.kind == "call" and e.name == CODEC + "::encode_message"]
+        wa = [e for e in p.events if e.kind == "await" and "write_all" in repr(tform(e.args[0]))]
+        ok = len(enc) == 1 and tform(enc[0].args[1]) == P("msg") and len(wa) == 1 and enc[0].result in atoms(wa[0].args[0]) and F(P("self"), "stream") in atoms(wa[0].args[0])
+        rep.check(ok, "write:encoded-message-written", "Ok(()) only after write_all(encode_message(msg)) on the stream was awaited", "MemcacheBinaryConnection::write can return Ok without having written the encoded response to the socket (%d encode_message, %d awaited write_all): a response can be lost or delayed past a later shutdown, or overtaken" % (len(enc), len(wa)), b.loc())
+    rep.check(n_ok > 0, "write:ok-path", "write has a success path", "cannot find a success path of MemcacheBinaryConnection::write", b.loc())
+    # nobody else writes to the socket
+    writers = set()
+    for body in f.bodies.values():
+        if body.crate != "memcrs.lib":
+            continue
+        for bb, t in body.calls():
+            nm = strip_generics(t.callee.path or "")
+            if nm.startswith("tokio::io::AsyncWriteExt::") and t.callee.name.startswith("write"):
+                writers.add(body.root or body.path)
+    for w in sorted(writers):
+        rep.check(w.startswith(CONN + "::write"), "socket-writer:" + w.replace("memcrs::", ""), "socket written only by the connection's write path", "%s writes to the socket directly: responses can be interleaved or reordered" % w)
+    return rep
+
+
+RULES = [("C12.R1", r1), ("C12.R2", r2), ("C12.R3", r3), ("C12.R4", r4), ("C12.R5", r5)]
